@@ -55,7 +55,7 @@ func (b *c10Backend) rec(ctx context.Context) *c10Seen {
 		s = &c10Seen{}
 		b.seen[id] = s
 		for k, v := range md {
-			if strings.HasPrefix(k, "x-c10") && k != "x-c10-id" {
+			if (strings.HasPrefix(k, "x-c10") || strings.HasPrefix(k, "grpc-c10")) && k != "x-c10-id" {
 				s.md = append(s.md, k+"="+fmt.Sprintf("%q", v))
 			}
 		}
@@ -65,6 +65,7 @@ func (b *c10Backend) rec(ctx context.Context) *c10Seen {
 }
 
 type c10Script struct {
+	eager   bool // answer after the first message without reading to the end of the client stream
 	replies int
 	code    codes.Code
 	failAt  int // -2 never; -1 before any reply; k after k replies
@@ -75,7 +76,9 @@ type c10Script struct {
 func scriptFromMD(ctx context.Context) c10Script {
 	md, _ := metadata.FromIncomingContext(ctx)
 	var sc c10Script
-	fmt.Sscanf(strings.Join(md.Get("x-c10-script"), ""), "%d,%d,%d", &sc.replies, &sc.code, &sc.failAt)
+	var eager int
+	fmt.Sscanf(strings.Join(md.Get("x-c10-script"), ""), "%d,%d,%d,%d", &sc.replies, &sc.code, &sc.failAt, &eager)
+	sc.eager = eager == 1
 	sc.msg = strings.Join(md.Get("x-c10-msg-bin"), "")
 	sc.details = strings.Join(md.Get("x-c10-details"), "") == "1"
 	return sc
@@ -134,6 +137,9 @@ func c10Specs(b *c10Backend) []*MethodSpec {
 				b.mu.Unlock()
 				break
 			}
+			if sc.eager {
+				break
+			}
 		}
 		n := sc.replies
 		if !ms.ServerStream {
@@ -190,7 +196,7 @@ func (c c10Client) String() string {
 	return fmt.Sprintf("replies=%v status=%v %q details=%s", c.replies, c.code, c.msg, c.details)
 }
 
-func c10Call(cc *grpc.ClientConn, fx *Fixture, method string, cs, ss bool, msgs []*dynamicpb.Message, md metadata.MD) (out c10Client) {
+func c10Call(cc *grpc.ClientConn, fx *Fixture, method string, cs, ss bool, msgs []*dynamicpb.Message, md metadata.MD, keepOpen ...bool) (out c10Client) {
 	ctx, cancel := context.WithTimeout(metadata.NewOutgoingContext(context.Background(), md), 1500*time.Millisecond)
 	defer cancel()
 	full := "/" + fxPkg + ".Back/" + method
@@ -238,7 +244,9 @@ func c10Call(cc *grpc.ClientConn, fx *Fixture, method string, cs, ss bool, msgs 
 			break
 		}
 	}
-	st.CloseSend()
+	if len(keepOpen) == 0 || !keepOpen[0] {
+		st.CloseSend()
+	}
 	for {
 		o := fx.NewMsg("Reply")
 		err := st.RecvMsg(o)
@@ -314,8 +322,9 @@ func runC10(c *Ctx) {
 	for cd := codes.Canceled; cd <= codes.Unauthenticated; cd++ {
 		allCodes = append(allCodes, cd)
 	}
-	msgsText := []string{"", "plain", "50% of \"x\"", "naïve ✓ 日本"}
+	msgsText := []string{"", "plain", "50% of \"x\"", "naïve ✓ 日本", "invalid name \"a%2Fb%2Fc\" %41 100%25", "%", "tab\there"}
 	id := 0
+	earlyOK := 0
 	n := c.N(260, 5000)
 	for i := 0; i < n; i++ {
 		sh := shapes[i%4]
@@ -337,6 +346,14 @@ func runC10(c *Ctx) {
 				sc.failAt = sc.replies
 			}
 		}
+		keepOpen := false
+		if sh.cs && nmsg >= 1 && sc.code != codes.OK && c.Rng.Intn(3) == 0 {
+			sc.eager, keepOpen = true, true // the backend fails early; the client keeps its side open and waits
+		}
+		if sh.cs && sh.ss && nmsg >= 1 && sc.code == codes.OK && earlyOK < 2 {
+			earlyOK++
+			sc.eager, keepOpen = true, true // the backend completes OK early (recorded finding: the proxy waits for the client)
+		}
 		var msgs []*dynamicpb.Message
 		for k := 0; k < nmsg; k++ {
 			m := backFx.NewMsg("Req")
@@ -352,17 +369,22 @@ func runC10(c *Ctx) {
 		}
 		mdFor := func(tag string) metadata.MD {
 			id++
-			return metadata.Pairs("x-c10-id", fmt.Sprint(tag, id), "x-c10-script", fmt.Sprintf("%d,%d,%d", sc.replies, sc.code, sc.failAt),
+			eager := 0
+			if sc.eager {
+				eager = 1
+			}
+			return metadata.Pairs("x-c10-id", fmt.Sprint(tag, id), "x-c10-script", fmt.Sprintf("%d,%d,%d,%d", sc.replies, sc.code, sc.failAt, eager),
 				"x-c10-msg-bin", sc.msg, "x-c10-details", map[bool]string{true: "1", false: "0"}[sc.details],
-				"x-c10-custom", "v1", "x-c10-custom", "v2", "x-c10-data-bin", string([]byte{0, 1, 0xfe, 0xff}))
+				"x-c10-custom", "v1", "x-c10-custom", "v2", "x-c10-data-bin", string([]byte{0, 1, 0xfe, 0xff}),
+				"grpc-c10-tenant", "t1", "grpc-c10-trace-bin", string([]byte{9, 8, 0xff}))
 		}
-		in := fmt.Sprintf("%s msgs=%d backend: replies=%d code=%v failAt=%d msg=%q details=%v", sh.name, nmsg, sc.replies, sc.code, sc.failAt, sc.msg, sc.details)
+		in := fmt.Sprintf("%s msgs=%d backend: replies=%d code=%v failAt=%d msg=%q details=%v eager=%v clientKeepsOpen=%v", sh.name, nmsg, sc.replies, sc.code, sc.failAt, sc.msg, sc.details, sc.eager, keepOpen)
 		c.Eval("proxy", in, true)
 		c.Class(sh.name + ":" + map[bool]string{true: "ok", false: "fail"}[sc.code == codes.OK])
 		dmd := mdFor("d")
-		dOut := c10Call(bcc, backFx, sh.name, sh.cs, sh.ss, msgs, dmd)
+		dOut := c10Call(bcc, backFx, sh.name, sh.cs, sh.ss, msgs, dmd, keepOpen)
 		pmd := mdFor("p")
-		pOut := c10Call(fcc, backFx, sh.name, sh.cs, sh.ss, msgs, pmd)
+		pOut := c10Call(fcc, backFx, sh.name, sh.cs, sh.ss, msgs, pmd, keepOpen)
 		bk.mu.Lock()
 		dSeen, pSeen := bk.seen[dmd.Get("x-c10-id")[0]], bk.seen[pmd.Get("x-c10-id")[0]]
 		bk.mu.Unlock()
@@ -373,7 +395,11 @@ func runC10(c *Ctx) {
 			pSeen = &c10Seen{}
 		}
 		if pOut.hung && !dOut.hung {
-			c.SpecFail("proxy", in, "the proxied call only ended by the client's deadline", "direct: "+dOut.String(), "C10/"+sh.name+"/never-finishes", "a call that finishes directly never finishes through the proxy")
+			key := "C10/" + sh.name + "/never-finishes"
+			if sc.eager && keepOpen && sc.code == codes.OK {
+				key = "C10/backend-ok-before-client-half-close/never-finishes"
+			}
+			c.SpecFail("proxy", in, "the proxied call only ended by the client's deadline", "direct: "+dOut.String(), key, "a call that finishes directly never finishes through the proxy")
 		} else if pOut.String() != dOut.String() {
 			key := "C10/" + sh.name + "/client-transcript"
 			if pOut.code != dOut.code {
@@ -381,7 +407,7 @@ func runC10(c *Ctx) {
 			}
 			c.SpecFail("proxy", in, "proxied: "+pOut.String(), "direct: "+dOut.String(), key, "the client does not observe what it observes when calling the backend directly")
 		}
-		if sc.failAt != -1 || sc.code == codes.OK { // a backend that fails before reading sees a race of arrivals either way
+		if (sc.failAt != -1 || sc.code == codes.OK) && !sc.eager { // a backend that fails before reading sees a race of arrivals either way
 			if strings.Join(pSeen.msgs, "|") != strings.Join(dSeen.msgs, "|") || pSeen.closed != dSeen.closed {
 				c.SpecFail("proxy", in, fmt.Sprintf("proxied backend got %d msgs closed=%v: %s", len(pSeen.msgs), pSeen.closed, truncS(strings.Join(pSeen.msgs, "|"), 300)), fmt.Sprintf("direct: %d msgs closed=%v: %s", len(dSeen.msgs), dSeen.closed, truncS(strings.Join(dSeen.msgs, "|"), 300)), "C10/"+sh.name+"/backend-transcript", "the backend does not receive the request messages / half-close it receives directly")
 			}
@@ -393,7 +419,7 @@ func runC10(c *Ctx) {
 			c.Class("response-metadata-differs:" + sh.name + ":" + map[bool]string{true: "ok", false: "fail"}[sc.code == codes.OK])
 		}
 		// the Lean forwarder model (streams): counts and status code
-		if (sh.cs || sh.ss) && c.Drv != nil {
+		if (sh.cs || sh.ss) && c.Drv != nil && !sc.eager {
 			got := fmt.Sprintf("%d,%v,%d,%d", len(pSeen.msgs), pSeen.closed, len(pOut.replies), pOut.code)
 			if pOut.hung {
 				got = fmt.Sprintf("%d,%v,%d,never", len(pSeen.msgs), pSeen.closed, len(pOut.replies))
